@@ -38,6 +38,13 @@ RANK = {'UNINITIALIZED': 0, 'CONNECTING': 1, 'CONNECTED': 2, 'CLOSING': 3, 'CLOS
 # implementation side
 # --------------------------------------------------------------------------------------------
 
+HANG_S = 10.0
+
+
+class _Hang(BaseException):
+    pass
+
+
 class _Slot:
     def __init__(self, idx, origin, typF, slow, obf):
         self.idx, self.origin, self.typF, self.slow, self.obf = idx, origin, typF, slow, obf
@@ -48,6 +55,7 @@ class _Slot:
         self.cfg = None              # how the init write behaves ('ok'|'block'|'fail')
         self.sends: list = []        # [task, reported]
         self.ticket = 100 + idx
+        self.remote_closed = False   # the remote end closed/reset the socket while the library was reading/draining
 
 
 def _run_impl(case: dict) -> dict:
@@ -61,7 +69,22 @@ def _run_impl(case: dict) -> dict:
                                            CannotConnect, GetUserStatus, Ping)
     from vlib.simserver import SimServer
 
+    hang = {'hit': 0}
+
     async def main(loop):
+        # a busy loop inside the library (no suspension, so virtual time cannot help) is ended by an exception that
+        # `except Exception` arms of the library do not swallow; the task it hits dies, the case goes on and is flagged
+        import signal
+
+        def on_alarm(signum, frame):
+            hang['hit'] += 1
+            signal.setitimer(signal.ITIMER_REAL, HANG_S)
+            raise _Hang()
+        try:
+            signal.signal(signal.SIGALRM, on_alarm)
+            signal.setitimer(signal.ITIMER_REAL, HANG_S)
+        except ValueError:
+            pass
         fn = GatedNet().install()
         try:
             slots: list[_Slot] = []
@@ -159,7 +182,7 @@ def _run_impl(case: dict) -> dict:
                 if name == 'reset':
                     return sock_open(slot) and (reader or awaiting or (w is not None and w.drain_parked()))
                 if name == 'disconnect':
-                    return c is not None
+                    return c is not None and (arg != 'frame' or reader)
                 if name == 'closeDone':
                     return w is not None and w.close_parked()
                 if name == 'send':
@@ -254,14 +277,22 @@ def _run_impl(case: dict) -> dict:
                     rr, rw = fn.rem[slot.key]
                     rw.write(b'\x05\x00')
                     rw.close()
+                    slot.remote_closed = True
                 elif name == 'eof':
                     fn.rem[slot.key][1].close()
+                    slot.remote_closed = True
                 elif name == 'reset':
                     fn.rem[slot.key][1].reset()
+                    slot.remote_closed = True
                 elif name == 'readTimeout':
                     assert fire_timer(loop, c, 'read')
                 elif name == 'disconnect':
                     slot._keep = getattr(slot, '_keep', []) + [asyncio.ensure_future(c.disconnect(CloseReason.REQUESTED))]
+                    if arg == 'frame':
+                        # a complete frame reaches the socket in the same loop iteration, behind the disconnect call
+                        data = (GetUserStatus.Response('x', 1, False).serialize() if slot.origin == 'server'
+                                else PeerSharesRequest.Request().serialize())
+                        fn.rem[slot.key][1].write(enc(slot, data))
                 elif name == 'closeDone':
                     if arg == 'timeout':
                         assert fire_timer(loop, c, 'close')
@@ -286,6 +317,7 @@ def _run_impl(case: dict) -> dict:
                 elif name == 'restart':
                     slot.task = asyncio.ensure_future(net.connect_server())
                     slot.task_reported = False
+                    slot.remote_closed = False
                 else:
                     raise ValueError(name)
 
@@ -357,6 +389,7 @@ def _run_impl(case: dict) -> dict:
                     facts['conns'][str(s.idx)] = {
                         'origin': s.origin,
                         'open': bool(sock_open(s) or (w is not None and w.close_parked())),
+                        'ended_by_remote': bool(s.remote_closed and not (w is not None and w.close_parked())),
                         'opening': bool(fn.connect_parked(s.key) and s.task is not None and not s.task.done()),
                         'state': s.conn.state.name if s.conn is not None else None,
                     }
@@ -390,6 +423,7 @@ def _run_impl(case: dict) -> dict:
                 facts_l.append(facts)
             keep = (obs, bus, net, srv_tasks)  # noqa: F841  (strong refs until here)
             return {'executed': executed, 'lines': lines, 'facts': facts_l, 'skipped': skipped, 'full': list(full),
+                    'hang': hang['hit'],
                     'loop_exceptions': [e for e in loop.exceptions if e.get('type') not in (None, 'CancelledError')]}
         finally:
             fn.uninstall()
@@ -523,7 +557,17 @@ def _monitor(case: dict, impl: dict) -> list[Violation]:
             if states and not f['open'] and not f['opening'] and states[-1] != 'CLOSED':
                 add('C10-never-closed', f'connection {i} has no socket and no running attempt but its last reported '
                     f'state is {states[-1]}', states, 'CLOSED is reported for every connection whose life ended')
+            elif states and f.get('ended_by_remote') and states[-1] != 'CLOSED':
+                add('C10-never-closed', f'connection {i}: the remote end closed/reset the socket while the library was '
+                    f'reading from (or draining to) it, nothing is pending, but the last reported state is {states[-1]}',
+                    states, 'CLOSED is reported for every connection whose life ended')
+    if impl.get('hang'):
+        add('C10-hang', 'the library spun without ever suspending (no quiescent moment is reached again); the spinning '
+            f'task had to be killed by the harness after {HANG_S:.0f} s of wall time', impl['lines'][-3:],
+            'every op is followed by a quiescent moment')
     for e in impl.get('loop_exceptions', []):
+        if e.get('type') == '_Hang':
+            continue
         add('C10-internal-error', 'exception reported to the loop exception handler', e)
     return vs
 
@@ -551,6 +595,7 @@ def _grid() -> list[dict]:
     established_endings = [
         ('local', [['at', 0, 'disconnect']]),
         ('local2', [['at', 0, 'disconnect', 2]]),
+        ('local-frame-behind', [['at', 0, 'disconnect', 'frame']]),
         ('eof', [['at', 0, 'eof']]),
         ('msg-eof', [['at', 0, 'frame', 1], ['at', 0, 'frame', 0], ['at', 0, 'frame', 1], ['at', 0, 'eof']]),
         ('reset', [['at', 0, 'reset']]),
@@ -589,7 +634,7 @@ def _grid() -> list[dict]:
                                                   ['at', 0, 'send', 'ok'], ['at', 0, 'disconnect']]
                        + closings(slow)[0] + tails[1])
                     for name, ending in established_endings:
-                        if typF and any(o[2] in ('eof', 'frame', 'partialEof', 'readTimeout') for o in ending):
+                        if typF and any(o[2] in ('eof', 'frame', 'partialEof', 'readTimeout') or o[-1] == 'frame' for o in ending):
                             continue      # nobody reads an 'F' connection here (the transfer code would)
                         if typF and name in ('reset',):
                             continue
@@ -613,7 +658,7 @@ def _grid() -> list[dict]:
                 for first in ('initP', 'initF', 'pierceP', 'pierceF'):
                     for name, ending in established_endings:
                         if first[-1] == 'F' and (name == 'reset' or any(
-                                o[2] in ('eof', 'frame', 'partialEof', 'readTimeout') for o in ending)):
+                                o[2] in ('eof', 'frame', 'partialEof', 'readTimeout') or o[-1] == 'frame' for o in ending)):
                             continue
                         mk(base + f':{first}:{name}', [new, ['at', 0, 'firstFrame', first]] + ending + cl + tails[1])
     # the server connection: the only one that may go CLOSED -> CONNECTING
@@ -635,7 +680,7 @@ OPS_W = [('connectOk', 'ok', 8), ('connectOk', 'block', 3), ('connectOk', 'fail'
          ('connectTimeout', None, 2), ('cancelAttempt', None, 4), ('firstFrame', 'initP', 4), ('firstFrame', 'initF', 1),
          ('firstFrame', 'pierceP', 2), ('firstFrame', 'pierceF', 1), ('firstFrame', 'pierceUnknown', 1),
          ('firstFrame', 'undecodable', 1), ('frame', 1, 5), ('frame', 0, 2), ('partialEof', None, 1), ('eof', None, 2),
-         ('reset', None, 2), ('readTimeout', None, 2), ('disconnect', None, 4), ('disconnect', 2, 2),
+         ('reset', None, 2), ('readTimeout', None, 2), ('disconnect', None, 4), ('disconnect', 2, 2), ('disconnect', 'frame', 2),
          ('closeDone', 'release', 5), ('closeDone', 'timeout', 2), ('send', 'ok', 5), ('send', 'block', 3),
          ('send', 'fail', 2), ('drainOk', None, 4), ('sendTimeout', 0, 2), ('sendTimeout', 1, 2)]
 
